@@ -18,8 +18,8 @@
   NOT modelled: `file` profiles, buffer iterators over non-`char` content, element types other than
   `double`/`uint32` in `mpt_iterator_consume`.
 -/
-import MptModel.Lemmas.IterArgsLemmas
-import MptModel.Lemmas.IterBufLemmas
+import MptModel.Lemmas.IterProfile
+import MptModel.Lemmas.IterMisc
 
 namespace Mpt.C19
 open Mpt Mpt.Iter Mpt.IterSpec
@@ -118,14 +118,37 @@ theorem reset_replays (g : Gen) (h : g.WF) :
   intro fuel hf
   rw [walk_visits _ c fuel (by rw [h1]; exact hf), h1]
 
-/-- **Clone replays**: a clone is an equal state (taken at any point), hence every later call sequence reports
-    on the clone what it reports on the original; after `reset` both replay the full sequence.
-    (The polynomial generator has no clone: `clone = none`.) -/
+/-- **Clone replays**: the state a clone is given equals the state of the original (taken at any point), hence
+    every later call sequence reports on the clone what it reports on the original; after `reset` both replay
+    the full sequence.  The model follows the C functions: the linear and factor generators copy their
+    parameter block, the boundary generator and the value list build a new object through the public creator
+    and transfer position and current value afterwards (`clone_defined`: that creator accepts what it is
+    given).  The polynomial generator has no clone (`clone = none`).
+    NOT expressible in this model: storage shared between original and clone (the model has values, not
+    objects) — that later calls on one do not disturb the other is tied by the correspondence run only
+    (clone, diverge, compare both). -/
 theorem clone_replays (g g' : Gen) (h : g.clone = some g') :
     g' = g ∧ ∀ ops, (runM g' ops).2 = (runM g ops).2 := by
   have := clone_eq g g' h
   subst this
   exact ⟨rfl, fun _ => rfl⟩
+
+/-- the public creators used by `clone` accept the parameters of every generator they have made -/
+theorem clone_defined :
+    (∀ (l i r : Rat) (elem pos : Nat), 2 ≤ elem →
+      (Gen.boundary l i r elem pos).clone = some (.boundary l i r elem pos)) ∧
+    (∀ (text : List Char) (next : Option (List Char)) (curr : Rat) (g0 : Gen), mkValues text = some g0 →
+      (Gen.values text next curr).clone = some (.values text next curr)) := by
+  refine ⟨clone_some_boundary, ?_⟩
+  intro text next curr g0 h
+  simp only [Gen.clone]
+  unfold mkValues at h ⊢
+  cases hc : cdouble text with
+  | ok v rest => rfl
+  | zero => rw [hc] at h; cases h
+  | err e => rw [hc] at h; cases h
+
+example : ((create "1 2 3".toList).bind fun g => g.advance.1.clone).map Gen.rem = some [2, 3] := by decide +kernel
 
 /-- **Linear formula**: `n ≥ 1` steps from `a` to `b` give the `n + 1` values `a + i·(b−a)/n`. -/
 theorem linear_formula (n : Nat) (a b : Rat) (hn : 1 ≤ n) :
@@ -141,29 +164,40 @@ theorem linear_formula (n : Nat) (a b : Rat) (hn : 1 ≤ n) :
 
 example : (mkLinear 5 0 1).map Gen.all = some [0, 1/4, 1/2, 3/4, 1] := by decide +kernel
 
-/-- the text form: whatever `lin( n : a b )` is accepted as, it is the linear generator of the scanned count
-    `n` (`n + 1` elements, 32-bit wrap) between the scanned bounds -/
+/-- the text form: whatever `lin( n : a b )` is accepted as, it is the linear generator of the count the
+    integer scanner reads behind the opening parenthesis (`n`, giving `n + 1` elements, 32-bit wrap) between the
+    bounds the number scanner reads behind the `:` (0 and 1 when that group is absent), and the closing
+    parenthesis follows; for canonical texts `accepted` says which numbers these are -/
 theorem linear_text (s : List Char) (g : Gen) (h : linArgs s = some g) :
-    ∃ n a b, 2 ≤ wrap32 (n + 1) ∧ g = .linear a ((b - a) / ((wrap32 (n + 1) - 1 : Nat) : Rat)) (wrap32 (n + 1)) 0 := by
+    ∃ c s0 n s1 a b s2, nextvis s = .ok (c, s0) ∧ c = '(' ∧ cuint32 s0.tail = .ok n s1 ∧
+      linRange s1 = some (a, b, s2) ∧ nextIs s2 ')' = true ∧ 2 ≤ wrap32 (n + 1) ∧
+      g = .linear a ((b - a) / ((wrap32 (n + 1) - 1 : Nat) : Rat)) (wrap32 (n + 1)) 0 := by
   unfold linArgs at h
   split at h
   · cases h
-  · split at h
+  · rename_i c s0 hv
+    split at h
     · cases h
-    · split at h
+    · rename_i hc
+      split at h
       · cases h
       · cases h
-      · rename_i iv s1 _
+      · rename_i iv s1 hu
         split at h
         · cases h
-        · rename_i mn mx s2 _
+        · rename_i mn mx s2 hr
           split at h
           · cases h
-          · unfold mkLinear at h
+          · rename_i hp
+            unfold mkLinear at h
             split at h
             · cases h
             · cases h
-              exact ⟨iv, mn, mx, by omega, rfl⟩
+              exact ⟨c, s0, iv, s1, mn, mx, s2, hv, by simpa using hc, hu, hr, by simpa using hp, by omega, rfl⟩
+
+example : linRange " : 0 1)".toList = some (0, 1, ")".toList) ∧
+    (match cuint32 "4 : 0 1)".toList with | .ok n r => n == 4 && r == " : 0 1)".toList | _ => false) = true := by
+  decide +kernel
 
 example : (create "lin(4 : 0 1)".toList).map Gen.all = some [0, 1/4, 1/2, 3/4, 1] := by decide +kernel
 example : (create "Linear( 2:-1 2 )".toList).map Gen.all = some [-1, 1/2, 2] := by decide +kernel
@@ -308,11 +342,53 @@ theorem string_past_end (s : StrIt) (h : s.pos = none) :
   · intro he; simp [StrIt.advance, he, h]
   · intro he; simp [StrIt.advance, he]
 
-/-- **Reset and clone of a text argument**: `reset` restores the state of a freshly created iterator (so the
-    loop replays the whole text), a clone is an equal state. -/
+/-- **Reset and clone of a text argument**: `reset` restores the state of a freshly created iterator (the
+    replay of the whole text is part of `string_protocol`); the clone — a new iterator over a copy of text
+    and separators, with position, end mark and element mark transferred — is an equal state (no field is
+    lost; shared storage is not expressible, see `clone_replays`). -/
 theorem string_reset_clone (s : StrIt) :
-    s.reset.1 = { s with pos := some 0, endNull := false, restore := none, patched := false } ∧ s.clone = s :=
-  ⟨rfl, rfl⟩
+    s.reset.1 = { s with pos := some 0, endNull := false, restore := none, patched := false } ∧ s.clone = s := by
+  refine ⟨rfl, ?_⟩
+  cases s
+  rfl
+
+/-- **Protocol on a text argument, for all call sequences the protocol speaks about**: over a text of number
+    tokens separated by single separator characters every sequence of `value` (read the element as a number) /
+    `advance` / `reset` calls in which no element in the middle of the text is advanced over without having
+    been read reports what the automaton over the numbers reports: the current number or NULL past the end,
+    "more" / "last", past the end "last" once more or an error, and `reset` restarts the whole text. -/
+theorem string_protocol (pairs : List (List Char × Char)) (last sep : List Char) (vs : List Rat) (vl : Rat)
+    (hp : ∀ p ∈ pairs, SepChar p.2) (hv : pairs.map (fun p => strictNumber p.1) = vs.map some)
+    (hl : strictNumber last = some vl) (ops : List Call) (outs : List TRes)
+    (h : ({ all := vs ++ [vl], rem := vs ++ [vl], read := false } : TCur).run ops = some outs) :
+    allOk outs ((StrIt.create (some (sepJoin pairs last)) (some sep)).run ops) := by
+  have hrel : StrRel sep (sepJoin pairs last) last vl (vs ++ [vl])
+      { all := vs ++ [vl], rem := vs ++ [vl], read := false } (atPos sep (sepJoin pairs last) ([] : List Char).length) :=
+    StrRel.fresh _ [] pairs vs (by simp) hp hv rfl rfl (by simp)
+  exact strRel_run sep last vl pairs vs hp hv hl ops _ _ hrel outs h
+
+example : ((StrIt.create (some "1,2 3".toList) none).run [.value, .value, .advance, .reset, .value, .advance, .value,
+    .advance, .value, .advance, .value, .advance, .advance])
+    = [.val (some 1), .val (some 1), .adv .more, .rst, .val (some 1), .adv .more, .val (some 2), .adv .more,
+       .val (some 3), .adv .last, .val none, .adv .last, .adv (.err .MissingData)] := by decide +kernel
+
+/-- **Key reads**: over a text of words separated by single characters of the separator set (words without
+    white space and separator characters) the documented loop with key reads yields the words, in order. -/
+theorem key_walk (sep : List Char) (pairs : List (List Char × Char)) (last : List Char)
+    (hp : ∀ p ∈ pairs, KeyWord sep p.1 ∧ sep.contains p.2 = true ∧ isSpace p.2 = false)
+    (hl : KeyWord sep last) (hsep : sep.isEmpty = false) (fuel : Nat) (hf : pairs.length < fuel) :
+    keyWalk fuel (StrIt.create (some (sepJoin pairs last)) (some sep)) = pairs.map (·.1) ++ [last] :=
+  keyWalk_from sep pairs last hp hl hsep [] fuel hf
+
+example : keyWalk 9 (StrIt.create (some "abc,def;g".toList) none) = ["abc".toList, "def".toList, "g".toList] := by
+  decide +kernel
+
+/-- **Word reads** (`char` vector): the word up to the next white space; the element ends behind it -/
+theorem word_read (sep pre w rest : List Char) (hne : w ≠ []) (hw : ∀ x ∈ w, isSpace x = false) :
+    (atPos sep (pre ++ (w ++ ' ' :: rest)) pre.length).word =
+      ({ atPos sep (pre ++ (w ++ ' ' :: rest)) pre.length with restore := some (pre.length + w.length), patched := true },
+        .ok w) :=
+  word_mid sep pre w rest hne hw
 
 /-! ### `mpt_iterator_consume` and the iterator-argument forms of the creators -/
 
@@ -347,6 +423,27 @@ theorem consume_gen (g : Gen) (h : g.WF) :
         | more => exact ⟨g2, by simp only [hr], hrem⟩
         | last => exact ⟨g2, by simp only [hr], hrem⟩
 
+/-- **Skip and unsigned consume on a generator**: `mpt_iterator_consume(it, 0, 0)` moves to the next element
+    (an error past the end); `'u'` finds no conversion from `double` (BadType, MissingData past the end) and
+    consumes nothing. -/
+theorem consume_skip_unsigned (g : Gen) (h : g.WF) :
+    (∀ v t, g.rem = v :: t → ∃ g', (Src.gen g).skip = (.gen g', none) ∧ g'.rem = t ∧ g'.WF) ∧
+    (g.rem = [] → ∃ g' e, (Src.gen g).skip = (.gen g', some e) ∧ g'.rem = []) ∧
+    (∃ g', (Src.gen g).consumeU.1 = .gen g' ∧ g'.abs = g.abs ∧ g'.WF ∧
+      (Src.gen g).consumeU.2 = .err (if g.rem = [] then .MissingData else .BadType)) :=
+  ⟨(skip_gen g h).1, (skip_gen g h).2, consumeU_gen g h⟩
+
+/-- **Consume on a text argument**: `'d'` delivers the number token at the position and moves behind its
+    separator, `'u'` the same for a count token. -/
+theorem consume_text (sep pre t : List Char) (c : Char) (rest : List Char) :
+    (∀ v, strictNumber t = some v → SepChar c →
+      (Src.str (atPos sep (pre ++ (t ++ c :: rest)) pre.length)).consumeD =
+        (.str (atPos sep ((pre ++ t ++ [c]) ++ rest) (pre ++ t ++ [c]).length), .ok v)) ∧
+    (∀ k, strictCount t = some k → isDigit c = false →
+      (Src.str (atPos sep (pre ++ (t ++ c :: rest)) pre.length)).consumeU =
+        (.str (atPos sep ((pre ++ t ++ [c]) ++ rest) (pre ++ t ++ [c]).length), .ok k)) :=
+  ⟨fun v hv hs => consumeD_mid sep pre t c rest v hv hs, fun k hk hc => consumeU_mid sep pre t c rest k hk hc⟩
+
 /-- **Linear generator from an argument iterator**: fed with the text `n a b` (any single separator
     characters) `_mpt_iterator_linear` makes the same generator as the description `lin(n : a b)`. -/
 theorem linear_from_argument (sep n ta tb : List Char) (c1 c2 : Char) (k : Nat) (va vb : Rat)
@@ -355,6 +452,19 @@ theorem linear_from_argument (sep n ta tb : List Char) (c1 c2 : Char) (k : Nat) 
     (linFromIter (.str (StrIt.create (some (n ++ c1 :: (ta ++ c2 :: tb))) (some sep)))).2
       = mkLinear (wrap32 (k + 1)) va vb :=
   linFromIter_text sep n ta tb c1 c2 k va vb hn ha hb h1 h2
+
+/-- **Range generator from an argument iterator**: fed with the text `a b s` `_mpt_iterator_range` applies the
+    checks of the description `range(a b : s)` and makes the same generator. -/
+theorem range_from_argument (sep ta tb ts : List Char) (c1 c2 : Char) (va vb vs : Rat)
+    (ha : strictNumber ta = some va) (hb : strictNumber tb = some vb) (hs : strictNumber ts = some vs)
+    (h1 : SepChar c1) (h2 : SepChar c2) :
+    (rangeFromIter (.str (StrIt.create (some (ta ++ c1 :: (tb ++ c2 :: ts))) (some sep)))).2
+      = (if ¬ (0 < vs) ∨ (vb - va) * (1 + rangeTol) < vs ∨ vs < (vb - va) * (1 / 1000000) then none
+         else some (.linear va vs (wrap32 (rangeSteps va vb vs + 1)) 0)) :=
+  rangeFromIter_text sep ta tb ts c1 c2 va vb vs ha hb hs h1 h2
+
+example : ((rangeFromIter (.str (StrIt.create (some "0 1 0.25".toList) none))).2.map Gen.all)
+    = some [0, 1/4, 1/2, 3/4, 1] := by decide +kernel
 
 /-- **Factor generator from an argument iterator** with count and base: the factor is the base, as for
     the description `fac(n:b)`; a base below `DBL_MIN` is refused. -/
@@ -370,13 +480,15 @@ example : ((facFromIter (.str (StrIt.create (some "3 2".toList) none))).2.map Ge
 /-! ### Buffer argument iterator (mptcore/array/meta_buffer.c over a `char` array) -/
 
 /-- **The documented loop on a buffer argument**: over an array of NUL-terminated strings the iterator made by
-    `mpt_meta_buffer` yields exactly these strings, in order; a clone is an equal state. -/
+    `mpt_meta_buffer` yields exactly these strings, in order; the clone made at a string or behind the last one
+    (array reference, offset and length copied, string pointer recomputed) is an equal state. -/
 theorem buffer_walk (cur : List Char) (more : List (List Char)) (fuel : Nat)
     (hc : nul ∉ cur) (hm : ∀ s ∈ more, nul ∉ s) (hf : more.length < fuel) :
     bufWalk fuel (BufIt.create (some (joinNul (cur :: more))) false) = (cur :: more).map .str ∧
-    ∀ b : BufIt, b.clone = b := by
+    (∀ args pre c post, (bufAt args pre c post).clone = bufAt args pre c post) ∧
+    ∀ data, (bufEnd data).clone = bufEnd data := by
   rw [create_first cur more hc]
-  exact ⟨bufWalk_from false cur more [] fuel hc hm hf, fun _ => rfl⟩
+  exact ⟨bufWalk_from false cur more [] fuel hc hm hf, fun _ _ _ _ => rfl, fun _ => rfl⟩
 
 example : bufWalk 9 (BufIt.create (some ("cmd".toList ++ nul :: "a".toList ++ nul :: "bb".toList ++ [nul])) true)
     = [.str "a".toList, .str "bb".toList] := by decide +kernel
@@ -385,5 +497,89 @@ example : bufWalk 9 (BufIt.create (some ("cmd".toList ++ nul :: "a".toList ++ nu
 theorem buffer_past_end (pre cur : List Char) (args : Bool) :
     ((bufAt args pre cur []).advance).2 = .last ∧ ((bufAt args pre cur []).advance).1.value = .null :=
   bufAt_advance_last args pre cur
+
+/-- **Protocol on a buffer argument, for all interleavings**: over an array of NUL-terminated strings every
+    sequence of `value` / `advance` / `reset` calls reports exactly what the automaton over the strings
+    reports — the current string or NULL, "more" / "last" / an error past the end, and `reset` (successful)
+    returns to the first string from every position. -/
+theorem buffer_protocol (first : List Char) (rest : List (List Char)) (hf : nul ∉ first) (hr : ∀ s ∈ rest, nul ∉ s)
+    (ops : List Call) :
+    (BufIt.create (some (joinNul (first :: rest))) false).run ops
+      = lrun { all := first :: rest, rem := first :: rest } ops := by
+  rw [create_first first rest hf]
+  exact bufRel_run first rest hf hr ops _ _ (BufRel.here _ [] first rest (by simp) hf hr rfl rfl)
+
+example : (BufIt.create (some ("a".toList ++ nul :: "bb".toList ++ [nul])) false).run
+    [.advance, .value, .advance, .value, .advance, .reset, .value]
+    = [.adv .more, .val (some "bb".toList), .adv .last, .val none, .adv .err, .rst true, .val (some "a".toList)] := by
+  decide +kernel
+
+/-! ### Profile descriptions (`mpt_iterator_profile`) -/
+
+/-- **Accepted profile descriptions**: every canonical profile description (`lin a b` / `linear a b`,
+    `bound l i r` / `boundary l i r`, `poly c… [ : s…]`; Spec/IterGrammar.lean) over a grid for which it has a
+    meaning is accepted and the generator denotes exactly that sequence: the linear profile `len − 1` equal
+    steps from `a` to `b`, the boundary profile `l, i, …, i, r`, the polynomial `Σ_j c_j·(x + s_j)^(n−1−j)` at
+    the grid points. -/
+theorem profile_accepted (grid : List Rat) (s : List Char) (d : PDesc) (den : Den)
+    (h : recogniseProfile s = some d) (hd : d.den grid = some den) :
+    ∃ g, profile grid s = some g ∧ g.all = den.elems ∧ g.rem = g.all ∧ g.WF :=
+  accept_profile grid s d den h hd
+
+example : recogniseProfile "poly 1 0 0 : 1".toList = some (.poly [1, 0, 0] [1]) ∧
+    recogniseProfile "boundary 0.5 0 -0.5".toList = some (.bound (1/2) 0 (-1/2)) ∧
+    ((PDesc.poly [1, 0, 0] [1]).den [-1, 0, 1]).map Den.elems = some [0, 1, 4] := by decide +kernel
+
+/-- **Malformed profile descriptions are refused**: a text that does not begin with one of the three keywords,
+    a canonical `lin` / `bound` description with too few numbers, and every description over an array without
+    points. -/
+theorem profile_malformed_refused (grid : List Rat) (s : List Char) (h : profileMalformed s = true ∨ grid = []) :
+    profile grid s = none :=
+  profile_refused grid s h
+
+example : profileMalformed "other 1 2".toList = true ∧ profileMalformed "lin 1".toList = true ∧
+    profileMalformed "bound 1 2".toList = true ∧ profileMalformed "lin 1 2".toList = false := by decide +kernel
+
+/-! ### Malformed descriptions beyond the "certainly malformed" class -/
+
+/-- **A malformed count is refused**: behind `lin(` / `fac(` something that is no count (`lin()`, `lin(abc)`,
+    `lin(-3 : 0 1)`, `fac(:2)`) or a count followed by something else than `:` or `)` (`lin(4 ; 0 1)`). -/
+theorem malformed_count_refused (s : List Char) (h : malformedCount s = true) : create s = none :=
+  malformedCount_refused s h
+
+example : malformedCount "lin(abc)".toList = true ∧ malformedCount "lin()".toList = true ∧
+    malformedCount "lin(4 ; 0 1)".toList = true ∧ malformedCount "lin(-3 : 0 1)".toList = true ∧
+    malformedCount "fac(:2)".toList = true ∧ malformedCount "lin(4 : 0 1)".toList = false ∧
+    malformedCount "fac(3)".toList = false := by decide +kernel
+
+/-- **Recognised descriptions without a sequence are refused**: `lin(0 : a b)` (no step), `range(a b …)` with
+    `b ≤ a`, a step that is not positive. -/
+theorem senseless_refused (s : List Char) (d : Desc) (h : recognise s = some d) (hs : d.senseless = true) :
+    create s = none :=
+  Mpt.Iter.senseless_refused s d h hs
+
+example : (recognise "range(1 0)".toList).map Desc.senseless = some true ∧
+    (recognise "lin(0 : 0 1)".toList).map Desc.senseless = some true ∧
+    (recognise "range(0 1 : -0.5)".toList).map Desc.senseless = some true := by decide +kernel
+
+/-! ### Array fillers (values_linear.c, values_bound.c) -/
+
+/-- **`mpt_values_linear`** (at least two points, stride at least 1): slot `i·ld` holds the `i`-th of `points`
+    values from `min` to `max` in equal steps, nothing else is written. -/
+theorem values_linear_fill (points ld : Nat) (mn mx : Rat) (size : Nat) (hp : 2 ≤ points) (hl : 1 ≤ ld)
+    (k : Nat) (hk : k < size) :
+    (valuesLinear points ld mn mx size).getD k 0 =
+      if k % ld = 0 ∧ k / ld < points then (IterSpec.linear (points - 1) mn mx).nth (k / ld) else 0 :=
+  valuesLinear_spec points ld mn mx size hp hl k hk
+
+/-- **`mpt_values_bound`** (at least two points, stride at least 1): `left`, `cont` …, `right` at stride `ld` -/
+theorem values_bound_fill (points ld : Nat) (l c r : Rat) (size : Nat) (hp : 2 ≤ points) (hl : 1 ≤ ld)
+    (k : Nat) (hk : k < size) :
+    (valuesBound points ld l c r size).getD k 0 =
+      if k % ld = 0 ∧ k / ld < points then (IterSpec.boundary points l c r).nth (k / ld) else 0 :=
+  valuesBound_spec points ld l c r size hp hl k hk
+
+example : valuesLinear 3 2 0 1 6 = [0, 0, 1/2, 0, 1, 0] ∧ valuesBound 3 2 7 8 9 6 = [7, 0, 8, 0, 9, 0] := by
+  decide +kernel
 
 end Mpt.C19
